@@ -6,5 +6,5 @@ CONSTANTS
   Monotone = FALSE
   Ticks = TRUE
   IdleRec = TRUE
-INVARIANTS TypeOK Inv_Pending Inv_OnlyKnownShapes Inv_DirectRight
+INVARIANTS TypeOK Inv_Pending Inv_ParkedNext Inv_C01_HTTP
 VIEW View
